@@ -763,7 +763,17 @@ class BasePlaceholderManager(MpfController):
     def _eval_subscript(self, node, variables, subscribe):
         value, subscription = self._eval(node.value, variables, subscribe)
         if isinstance(node.slice, ast.Constant):
-            return value[node.slice.value], subscription
+            item = node.slice.value
+            if subscribe and isinstance(item, str) and hasattr(value, "subscribe_attribute"):
+                # item access on a placeholder reads the same variable as attribute access
+                subscription = subscription + [value.subscribe_attribute(item)]
+            try:
+                return value[item], subscription
+            except ValueError:
+                if subscribe:   # pylint: disable-msg=no-else-raise
+                    raise TemplateEvalError(subscription)
+                else:
+                    raise
         if isinstance(node.slice, ast.Slice):
             lower, lower_subscription = self._eval(node.slice.lower, variables, subscribe)
             upper, upper_subscription = self._eval(node.slice.upper, variables, subscribe)
